@@ -78,6 +78,12 @@ func runWSRace(x *X) {
 	x.Nontrivial = true
 	o := sysOpts{strategy: strategies[c.Intn(5, "strategy")], nBackends: 1 + c.Intn(3, "nbackends"), free: true}
 	o.timeouts = config.TimeoutConfig{Read: 60, Write: 60, Idle: 60, BackendRead: 60, BackendDial: 5, Handler: 120, Shutdown: 5}
+	// half of the sessions outlive server.timeouts.handler (tunnels are exempt from it: whatever
+	// bookkeeping the exemption needs runs next to a timer that fires in the middle of the session)
+	outlive := c.Intn(2, "outlive-handler-timeout") == 1
+	if outlive {
+		o.timeouts.Handler = 1
+	}
 	if c.Intn(2, "wspool") == 1 {
 		o.wsPool = true
 	}
@@ -149,6 +155,9 @@ func runWSRace(x *X) {
 				}
 				note("handshake: status %d err %v", st, err)
 				return
+			}
+			if outlive {
+				time.Sleep(1500 * time.Millisecond) // (virtual) past the handler timeout, then the traffic
 			}
 			done := make(chan struct{})
 			go func() {
